@@ -841,6 +841,9 @@ func runC10(c *Ctx) {
 
 	// ---------- R6 the handler that runs is the one the request names ----------
 	checkHandleRequestMatch(c, "R6")
+
+	// ---------- R7 EOF is recognised inside os's wrappers wherever it decides about data ----------
+	checkEOFRecognition(c, "R7")
 }
 
 func ptrNamed(p *Program, name string) types.Type {
@@ -1079,4 +1082,46 @@ func checkHandleRequestMatch(c *Ctx, rule string) {
 		}
 	}
 	c.check(n == 12, rule, "packet type × open method combinations", "?", "12 combinations", fmt.Sprintf("%d combinations examined", n))
+}
+
+// checkEOFRecognition (C10.R7): end-of-file from a handler counts "bare or inside os's own error wrappers".  The reply
+// path (statusFromError) recognises it with errors.Is; the wrappers that decide whether data or entries returned
+// together with an EOF are delivered must use the same test — a `!= io.EOF` comparison sends a wrapped EOF down the
+// error path and the data that came with it is dropped, while the status still says EOF.
+func checkEOFRecognition(c *Ctx, rule string) {
+	p := c.P
+	n := 0
+	for _, name := range []string{"fileget", "fileputget", "filelist", "filestat"} {
+		fn := p.Func(name)
+		if fn == nil {
+			c.missing(rule, name)
+			continue
+		}
+		ord := 0
+		eachInstr(fn, func(in ssa.Instruction) {
+			isEOF := func(v ssa.Value) bool {
+				for _, l := range leavesOf(v) {
+					if l.Kind == leafGlobal && l.V.Name() == "EOF" {
+						return true
+					}
+				}
+				return false
+			}
+			switch x := in.(type) {
+			case *ssa.BinOp:
+				if (x.Op == token.EQL || x.Op == token.NEQ) && (isEOF(x.X) || isEOF(x.Y)) {
+					n++
+					ord++
+					c.bad(rule, fmt.Sprintf("%s EOF test #%d", name, ord), p.Pos(in.Pos()), "the handler's error is compared with io.EOF by identity: an EOF inside *os.PathError/*os.SyscallError is not recognised here although statusFromError reports it as EOF, and the bytes or entries returned with it are dropped")
+				}
+			case *ssa.Call:
+				if callIs(&x.Call, "errors.Is") && len(x.Call.Args) == 2 && isEOF(x.Call.Args[1]) {
+					n++
+					ord++
+					c.ok(rule, fmt.Sprintf("%s EOF test #%d", name, ord), p.Pos(in.Pos()), "errors.Is(err, io.EOF), as in statusFromError")
+				}
+			}
+		})
+	}
+	c.check(n >= 5, rule, "EOF tests in the wrappers", "?", fmt.Sprintf("%d tests", n), fmt.Sprintf("only %d EOF tests found in the read/list wrappers", n))
 }
